@@ -295,14 +295,14 @@ class VarzAggregator(object):
 
     agg = defaultdict(dict)
     now = LOW_RESOLUTION_TIME_SOURCE.now
-    for metric in varz.keys():
+    for metric in list(varz.keys()):
       if metric not in metrics:
         continue
       varz_type = metrics[metric]
       assert isinstance(varz_type, int), varz_type
       metric_agg = agg[metric]
       gevent.sleep(0)
-      for source in varz[metric].keys():
+      for source in list(varz[metric].keys()):
         key = key_selector(source)
         data = varz[metric][source]
         if key not in metric_agg:
